@@ -52,6 +52,10 @@ def execute_plan(prop, plan: dict) -> dict:
     signal.setitimer(signal.ITIMER_REAL, RUN_WALL_CAP_S)
     try:
         result = prop.execute(plan)
+    except core.Violation as exc:
+        # an oracle verdict that escaped the property's own bookkeeping (e.g. a result whose accessors raise)
+        sys.settrace(None)
+        result = {"violations": [exc.record()], "events": [["escaped-violation", exc.clause, exc.op]], "stats": {"decided": 1}, "sigs": []}
     except _RunTimeout:
         sys.settrace(None)
         result = {"violations": [], "events": [["run-timeout"]], "stats": {"undecided:run-timeout": 1}, "sigs": []}
